@@ -60,6 +60,11 @@ func (commitmentProof *CommitmentProof) Validate() error {
 			len(commitmentProof.SubtreeRootProofs),
 		)
 	}
+	for i, subtreeRootProof := range commitmentProof.SubtreeRootProofs {
+		if subtreeRootProof == nil {
+			return fmt.Errorf("subtree root proof %d is nil", i)
+		}
+	}
 	if len(commitmentProof.SubtreeRootProofs) != len(commitmentProof.RowProof.Proofs) {
 		return fmt.Errorf(
 			"the number of subtree root proofs %d should be equal to the number of row root proofs %d",
